@@ -1349,6 +1349,13 @@ pub fn operator_trie(cx: &mut Ctx, rule: &str) {
                 if variant_of.values().any(|v| *v == e.tok) && ref_ops.contains_key(variant_of.iter().find(|(_, v)| **v == e.tok).map(|(k, _)| k.as_str()).unwrap_or("")) {
                     cx.fail(rule, &format!("{}/arm/{}/stray-{}", rule, arm_name, e.tok), &format!("{}:{}", lx.rel, e.line), &format!("arm `{}` emits operator token {}", arm_name, e.tok));
                 }
+                // any token an arm emits itself (the one-character NAME of an emoji, the Newline) brackets exactly the
+                // characters the arm consumed
+                if e.s_ok && e.e_ok {
+                    cx.ok(rule, &format!("arm `{}`: Tok::{} spans the characters consumed for it", arm_name, e.tok));
+                } else {
+                    cx.fail(rule, &format!("{}/arm/{}/range-{}", rule, arm_name, e.tok), &format!("{}:{}", lx.rel, e.line), &format!("arm `{}` emits Tok::{} with a range whose {}: the token does not cover the text it was lexed from", arm_name, e.tok, if !e.s_ok { "start is not get_pos() taken before the first consumed character" } else { "end is not get_pos() taken after the last consumed character" }));
+                }
             }
             continue;
         }
